@@ -248,6 +248,9 @@ impl<W: 'static, R: 'static, T: 'static> XSequence<W, R, T> {
             return Ok(Err(base0));
         }
         let Some(len0) = seq0.len() else { return Err("first sequence is infinite"); };
+        if seq1.len().map_or(false, |len1| len0.checked_add(len1).is_none()) {
+            return Err("sequence is too long");
+        }
         let (parts, midpoint_lengths) = match (seq0, seq1) {
             (
                 Self::Chain {
